@@ -65,7 +65,7 @@ def run(ctx):
     try:
         cases = os.path.join(d, "cases.ndjson")
         workers = 4
-        num = 220 if ctx.quick else 9000
+        num = 220 if ctx.quick else 6000
         res = vlib.run_tlc("DocRT", "DocRT_sim.cfg", workers=workers, simulate="num=%d" % num, depth=25, seed=ctx.seed, timeout=1500,
                            payloads={"CASE": cases})
         if res.violated or not res.ok:
